@@ -112,7 +112,10 @@ def gen(rng, tier):
             b1, b2 = b2, b1
         same_numerals = {'fine': fine, 'coarse': coarse}
     lhs, rhs = sides(law, p, q, b1, b2, unbounded)
-    if online and (common.f08_blind(lhs) or common.f08_blind(rhs) or sg.horizon(lhs) != sg.horizon(rhs) or sg.horizon(lhs) > 12):
+    costly = same_numerals is not None and any(x[0] in sg.FUTURE_OPS for x in sg.walk(lhs))
+    # (costly: 1000-sample windows AND a pastified operand mean > 3000 updates of warm-up, 14-18 s of CPU for one run - too close
+    #  to the run limit; the same-numerals laws are only run over past-time operands online)
+    if online and (costly or common.f08_blind(lhs) or common.f08_blind(rhs) or sg.horizon(lhs) != sg.horizon(rhs) or sg.horizon(lhs) > 12):
         # (unbounded memory above a delayed operand: open finding F08) - fall back to past-time operands
         cfg.ops = set(common.DENSE_PAST_OPS if dense else common.PAST_OPS)
         for _ in range(50):
